@@ -597,6 +597,37 @@ def r13_path_key(c, facts):
     c.floor(R, 'path-item keys built in all_paths', k, 1)
 
 
+def r15_id_per_operation(c, facts, rule='C03.R15'):
+    """every operation of a path item gets an id computed for *its* method: no iteration of the loop over the methods of
+    a relation reaches the next one without calling xfer_id (whose result depends on the method). An operation reused
+    for the second method of a multi-method transfer carries the first method's operationId."""
+    R = c.rule(rule, 'ID-PER-OPERATION: relation_path_item computes the operationId of every (method, transfer) pair by a call of xfer_id in that iteration')
+    fn = facts.normalised(c.anchor(R, 'oal_openapi::Builder::relation_path_item'))
+    loops = [(b, t) for b, t in P.call_blocks(fn, 'Iterator::next') if 'Method' in fn.mir['locals'][t['dest']['l']]['ty']]
+    xid = {b for b, t in P.call_blocks(fn, 'Builder::xfer_id')}
+    if not loops or not xid:
+        c.bad(R, 'relation_path_item:shape', 'cannot find the loop over the methods of the relation or the call of xfer_id in relation_path_item')
+        return
+    n = 0
+    for b, t in loops:
+        n += 1
+        idx = MF.defs_index(fn)
+        # the method handed to xfer_id is the one of the iteration
+        own = True
+        for xb, xt in P.call_blocks(fn, 'Builder::xfer_id'):
+            if len(xt['args']) > 2 and 'l' in xt['args'][2]:
+                sl = MF.slice_back(fn, xt['args'][2]['l'], idx)
+                if not any(ct is t for _, ct, _ in sl['calls']):
+                    own = False
+        if b in fn.reachable_from(t['target'], avoid=xid):
+            c.bad(R, 'operation-without-own-id', 'relation_path_item can finish an iteration over the methods without calling xfer_id: the operation of that method carries an id computed for another method (two operations, one operationId)')
+        elif not own:
+            c.bad(R, 'id-for-another-method', 'the method handed to xfer_id is not the one of the iteration')
+        else:
+            c.ok(R, {'relation_path_item': 'xfer_id(transfer, method, uri) is called in every iteration, with the iteration\'s method'})
+    c.floor(R, 'loops over the methods of a relation', n, 1)
+
+
 def r5_base_closed(c, facts):
     """the base document: paths are replaced wholesale (shared with C14.R1/R3); the kept component maps can still refer to
     the replaced schemas (genuine, recorded)"""
@@ -733,6 +764,7 @@ def run(c, facts):
     c.run(lambda c: _c02.r21_annotation_precedence(c, facts, rule='C03.R12'))      # an operationId given at the use of a function is the one emitted
     c.run(r5_base_closed, facts)
     c.run(r13_path_key, facts)
+    c.run(r15_id_per_operation, facts)
     c.run(r6_operation_ids, facts)
     c.run(lambda c: c04.r5_status_conv(c, facts, rule='C03.R4'))
     c.run(r1_ref_close, facts)
